@@ -623,7 +623,10 @@ func ruleOneConfigValue(c *Ctx) {
 	load := F(P.Method("server/core", "Storage", "LoadConfig"))
 	okLoad := newOkEv(reload, "ok(LoadConfig)", callMatcher(load))
 	exists := &guardEv{name: "config key exists", match: func(cond ssa.Value, pos bool) bool {
-		return pos && derivesFrom(cond, resultOfCall(load), 2) && !isErrorType(cond.Type())
+		return pos && derivesFrom(cond, func(v ssa.Value) bool {
+			ex, ok := v.(*ssa.Extract)
+			return ok && ex.Index == 0 && valueIsCallTo(ex.Tuple, load)
+		}, 2)
 	}}
 	c.need(rule, reload, "install of a section", func(x ssa.Instruction) bool {
 		cl, ok := x.(*ssa.Call)
@@ -638,6 +641,24 @@ func ruleOneConfigValue(c *Ctx) {
 		}
 		return false
 	}, []Ev{okLoad, exists}, all, "sections are replaced only by a successfully loaded, existing stored configuration")
+	// …and then all of them are, whatever their stored value: a section that is skipped when it is stored empty keeps
+	// serving what this member had in memory, and the next accepted change writes that back
+	for _, sl := range os.slots {
+		slot := sl
+		installed := &calledEv{name: "section " + slot.Name() + " installed", match: func(x ssa.Instruction) bool {
+			cl, ok := x.(*ssa.Call)
+			if !ok || len(cl.Call.Args) == 0 {
+				return false
+			}
+			if fieldOfAddr(cl.Call.Args[0]) == slot {
+				return true
+			}
+			g := cl.Call.StaticCallee()
+			return g != nil && os.mutators[g][slot]
+		}}
+		c.need(rule, reload, "return with section "+slot.Name(), func(x ssa.Instruction) bool { _, ok := x.(*ssa.Return); return ok },
+			[]Ev{exists, installed}, func(h []bool) bool { return !h[0] || h[1] }, "when a stored configuration exists every section is installed from it on every path, also an empty one")
+	}
 }
 
 // ruleReloadMigration: Reload runs MigrateDeprecatedFlags on the loaded value.
